@@ -1,16 +1,48 @@
-CLAIM = "C06 (partial) TODO"
-ASSUMPTIONS = []
+CLAIM = ("C06, solver-decidable parts (bounded symbolic execution of the real sources): "
+         "(glob) src/filter.c match_glob == the textbook definition of '*'/'?' wildcard matching (case-sensitive, whole string) for all patterns x strings up to "
+         "the bound; matches_filter/lha_filter_next_file return exactly the members whose path+name is matched by some wildcard, in archive order; "
+         "(path) file_full_path == [w=DIR '/'] + stored path without leading '/' (omitted under option i) + name; make_parent_directories visits exactly the "
+         "parents of that path, outermost first, creating the missing ones with 0755; "
+         "(overwrite/options) extract_archived_file extracts an existing file exactly when the decision table (policy, prompt answers y/n/empty/a/s, re-prompt "
+         "otherwise) says so, consuming exactly the answer lines; parse_options maps f i n v q[digit] w[=]DIR to the option fields for all option strings up to the bound; "
+         "(dirs) over a catalogue of well-formed 3-member archives and a model filesystem with owner-permission semantics the real reader creates every "
+         "directory owner-writable first, writes the children, and applies recorded mode and time afterwards (END_OF_DIR and END_OF_FILE policies), so that "
+         "read-only directories still receive their children and keep their recorded time; files get recorded mode and time; "
+         "(arch) lha_arch_fopen/mkdir/chmod/chown/utime issue exactly the corresponding libc calls with the recorded values; "
+         "(macbin) is_macbinary_header <=> the envelope field table on 128 symbolic bytes; the pass-through decoder drops exactly a recognised 128-byte "
+         "envelope, limits output to the data (else resource) fork and otherwise passes the inner stream through unchanged.")
+ASSUMPTIONS = [
+    "NOT encoded: real file I/O, the kernel's open/mkdir/chmod/utime/symlink behaviour, umask, ownership rules, time zone handling of utime; the model filesystem "
+    "of dirs.* is the harness author's statement of owner-permission semantics (create needs parent w+x, chmod/utime need parent x, creation stamps the parent)",
+    "decoding of payload bytes is outside (C01-C04, C07): the decoder below the reader is a stub",
+    "archives of the dirs.* catalogue are well-formed (each directory entry directly followed by its contents), 3 members, nesting depth <= 2; deeper/larger trees are not covered",
+    "the print command's byte copy (print_archived_file) and symlink targets' recreation are not covered by a C06 harness (link creation order is C10's defer.*)",
+    "glob bound: patterns and strings of <= 3 bytes in the quick tier, <= 4 in the thorough tier",
+    "overwrite prompt: answers contain no NUL byte; a run whose standard input ends at a prompt exits (not a verdict)",
+    "MacBinary: member length fits 32 bits (format field width) and the two fork lengths sum below 4 GiB (the real code adds them in 32 bits)",
+    "C locale for tolower (ASCII model)",
+]
+SHAPE_STUBS = ["lha_arch_exists / lha_arch_mkdir: recording stubs, arbitrary results per call", "malloc/strdup/free: typed static buffers (size asked is checked)", "safe_printf/safe_fprintf: no-ops"]
+MB_UW = {"harness_strip.1": 130, "harness_strip.3": 130, "ref_is_macbinary.1": 130, "block_is_zero.0": 66, "verif_memcmp.0": 5, "verif_memcpy.0": 130,
+         "lha_decoder_read.0": 130, "harness_strip.2": 9, "decode_to_end.0": 9, "read_macbinary_header.0": 4}
 HARNESSES = [
     dict(name="glob.3x3", src="C06/glob.c", defines=["GL=3", "NL=3"], unwind=6, unwindset={"match_glob": 3, "match_glob.0": 4, "match_glob.1": 4},
-         units=["src/filter.c:match_glob"], timeout=120,
+         units=["src/filter.c:match_glob"], timeout=200,
          bounds="all patterns of <= 3 bytes x all strings of <= 3 bytes (all byte values); recursion depth 3 proved sufficient by the recursion unwinding assertion"),
-    dict(name="glob.4x4", src="C06/glob.c", defines=["GL=4", "NL=4"], unwind=7, unwindset={"match_glob": 4, "match_glob.0": 5, "match_glob.1": 5},
-         units=["src/filter.c:match_glob"], timeout=600,
+    dict(name="glob.4x4", src="C06/glob.c", defines=["GL=4", "NL=4"], unwind=7, unwindset={"match_glob": 4, "match_glob.0": 5, "match_glob.1": 5}, tier="thorough",
+         units=["src/filter.c:match_glob"], timeout=1800,
          bounds="all patterns of <= 4 bytes x all strings of <= 4 bytes (all byte values)"),
     dict(name="filter.m3", src="C06/filter.c", defines=["M=3", "NF=2", "SL=2"], unwind=6, rename_defs={"src/filter.c": ["match_glob"]},
-         units=["src/filter.c:matches_filter,lha_filter_next_file,lha_filter_init"], timeout=200,
+         units=["src/filter.c:matches_filter,lha_filter_next_file,lha_filter_init"], timeout=400,
          bounds="3 members (path, name each NULL or <= 2 arbitrary bytes), 0..2 wildcard arguments, arbitrary match verdict per (wildcard, member)",
-         stubs=["match_glob: recording stub with arbitrary verdict (verified by glob.*)", "lha_reader_next_file: serves the members", "malloc/free: static buffer"]),
+         stubs=["match_glob: recording stub with arbitrary verdict (its meaning is decided by glob.*)", "lha_reader_next_file: serves the members", "malloc/free: static buffer"]),
+    dict(name="path.s3", src="C10/shape.c", defines=["SL=3"], unwind=13,
+         units=["src/extract.c:file_full_path,make_parent_directories,check_parent_directory"], timeout=300,
+         bounds="path, filename, extract_path: all strings of <= 3 bytes within the C11 guarantee (extract_path unconstrained), each may be NULL; use_path 0/1 (option i); lha_arch_exists/mkdir results arbitrary per call",
+         stubs=SHAPE_STUBS),
+    dict(name="path.s4", src="C10/shape.c", defines=["SL=4"], unwind=16, tier="thorough",
+         units=["src/extract.c:file_full_path,make_parent_directories,check_parent_directory"], timeout=900,
+         bounds="as path.s3 with strings of <= 4 bytes", stubs=SHAPE_STUBS),
     dict(name="overwrite.l5", src="C06/overwrite.c", defines=["L=5"], unwind=8,
          units=["src/extract.c:extract_archived_file,confirm_file_overwrite,prompt_user,file_exists"], timeout=300,
          bounds="two members in sequence (file/dir/symlink each), existing or not, 3 initial policies, option i, quiet 0..2, scripted standard input of <= 5 arbitrary non-NUL bytes",
@@ -18,30 +50,25 @@ HARNESSES = [
     dict(name="options.n5", src="C06/options.c", defines=["N=5"], unwind=8,
          units=["src/main.c:parse_options,init_options"], timeout=200,
          bounds="all option strings of <= 5 bytes (all byte values)"),
-    dict(name="path.s3", src="C10/shape.c", defines=["SL=3"], unwind=13,
-         units=["src/extract.c:file_full_path,make_parent_directories,check_parent_directory"], timeout=300,
-         bounds="path, filename, extract_path: all strings of <= 3 bytes within the C11 guarantee (extract_path unconstrained), each may be NULL; use_path 0/1; lha_arch_exists/mkdir results arbitrary per call",
-         stubs=["lha_arch_exists / lha_arch_mkdir: recording stubs, arbitrary results", "malloc/strdup/free: typed static buffers (size asked is checked)", "safe_printf/safe_fprintf: no-ops"]),
     dict(name="arch.trace", src="C10/excl.c", unwind=12,
-         units=["lib/lha_arch_unix.c:lha_arch_fopen,lha_arch_mkdir,lha_arch_chmod,lha_arch_chown,lha_arch_utime,lha_arch_exists"], timeout=120,
+         units=["lib/lha_arch_unix.c:lha_arch_fopen,lha_arch_mkdir,lha_arch_chmod,lha_arch_chown,lha_arch_utime,lha_arch_exists"], timeout=200,
          bounds="arbitrary uid/gid/perms/mode/timestamp; every libc call returns an arbitrary value within its contract",
-         stubs=["libc file calls: recording stubs with arbitrary results"]),
+         stubs=["libc file calls (unlink/open/fchown/fchmod/fdopen/close/remove/mkdir/chown/chmod/utime/stat): recording stubs with arbitrary results"]),
     dict(name="macbin.detect", src="C06/macbin.c", entry="harness_detect", defines=["FN=3"], unwind=5, extra_srcs=["lib/lha_endian.c"],
          unwindset={"harness_detect.1": 130, "ref_is_macbinary.1": 130, "block_is_zero.0": 66, "verif_memcmp.0": 5},
-         units=["lib/macbinary.c:is_macbinary_header,block_is_zero,check_modification_time"], timeout=300,
+         units=["lib/macbinary.c:is_macbinary_header,block_is_zero,check_modification_time", "lib/lha_endian.c:lha_decode_be_uint32"], timeout=400,
          bounds="all 128 envelope bytes symbolic, member name <= 3 arbitrary bytes, member length (64 bit) and timestamp arbitrary; fork lengths summing below 4 GiB",
          stubs=["memcmp: byte-loop model"]),
 ] + [
+    dict(name="macbin.strip%d" % hs, src="C06/macbin.c", entry="harness_strip", defines=["FN=3", "HSPLIT=%d" % hs], unwind=5, extra_srcs=["lib/lha_endian.c"], unwindset=MB_UW,
+         units=["lib/macbinary.c:macbinary_decoder_init,read_macbinary_header,macbinary_decoder_read,decode_to_end,is_macbinary_header"], timeout=600, mem_gb=6,
+         bounds="envelope bytes, name, timestamp as macbin.detect, member length 32 bit; envelope %s; afterwards the inner decoder delivers pieces of arbitrary size and ends anywhere (<= 7 calls); two read calls" % d,
+         stubs=["lha_decoder_read (inner decoder): arbitrary piece sizes, position-tagged data", "memcpy/memcmp: byte-loop models"])
+    for hs, d in [(0, "delivered in one piece"), (1, "delivered as 100 + 28 bytes"), (2, "cut short after 100 bytes")]
+] + [
     dict(name="dirs.cat%d" % c, src="C06/dirs.c", defines=["M=3", "CAT=%d" % c], unwind=9,
-         units=["lib/lha_reader.c:lha_reader_next_file,lha_reader_extract,extract_directory,end_of_top_dir,set_directory_metadata,extract_file,open_output_file,set_timestamps_from_header"], timeout=300, mem_gb=6,
+         units=["lib/lha_reader.c:lha_reader_next_file,lha_reader_extract,extract_directory,end_of_top_dir,set_directory_metadata,extract_file,open_output_file,set_timestamps_from_header"], timeout=400, mem_gb=6,
          bounds="catalogue entry %d: %s; per member arbitrary extra flags, permission bits (<= 07777), timestamp, length, CRC; directories may pre-exist (owner rwx) with arbitrary mode/time; chown succeeds or fails; %s" % (c, d, "END_OF_FILE policy only" if c == 6 else "3 directory policies"),
          stubs=["lha_arch_*: model filesystem (owner permission semantics, parent mtime stamping)", "lha_basic_reader_*: serves the 3 headers", "decoder: payload decodes with matching length/CRC, one read", "fwrite/fclose: succeed"])
     for c, d in [(0, "a/ a/b/ a/b/f"), (1, "a/ a/f c/"), (2, "a/ c/ c/f"), (3, "a/ a/f a/g"), (4, "a/ a/b/ a/g"), (5, "a/ a/f ab/"), (6, "a/ c/ a/g (not contiguous)")]
-] + [
-    dict(name="macbin.strip%d" % hs, src="C06/macbin.c", entry="harness_strip", defines=["FN=3", "HSPLIT=%d" % hs], unwind=5, extra_srcs=["lib/lha_endian.c"],
-         unwindset={"harness_strip.1": 130, "harness_strip.3": 130, "ref_is_macbinary.1": 130, "block_is_zero.0": 66, "verif_memcmp.0": 5, "verif_memcpy.0": 130, "lha_decoder_read.0": 130, "harness_strip.2": 9, "decode_to_end.0": 9, "read_macbinary_header.0": 4},
-         units=["lib/macbinary.c:macbinary_decoder_init,read_macbinary_header,macbinary_decoder_read,decode_to_end,is_macbinary_header"], timeout=300, mem_gb=6,
-         bounds="envelope bytes, name, member length, timestamp as macbin.detect; envelope %s; afterwards the inner decoder delivers pieces of arbitrary size and ends anywhere (<= 7 calls); two read calls" % d,
-         stubs=["lha_decoder_read (inner decoder): arbitrary piece sizes, position-tagged data", "memcpy/memcmp: byte-loop models"])
-    for hs, d in [(0, "delivered in one piece"), (1, "delivered as 100 + 28 bytes"), (2, "cut short after 100 bytes")]
 ]
